@@ -7,7 +7,8 @@ import (
 	"verifharness/internal/hx"
 )
 
-func genCase(r *hx.Rand, uniform bool) input {
+func genCase(r *hx.Rand, mode int) input { // mode 0 uniform, 1 non-uniform satisfying the condition, 2 violating it
+	uniform := mode != 2
 	log2 := []uint64{12, 12, 12, 4, 16, 21, 1}[r.Pick(5, 3, 2, 2, 1, 1, 1)]
 	sz := uint64(1) << log2
 	in := input{Log2: log2, Lat: r.Pick(2, 3, 3, 1, 1), Max: r.Range(1, 5), Auto: !r.Chance(1, 12), Cap: r.Range(1, 4)}
@@ -33,6 +34,9 @@ func genCase(r *hx.Rand, uniform bool) input {
 		}
 		in.Pre = append(in.Pre, p)
 	}
+	if mode == 1 {
+		in.Pre = append(in.Pre, conforming(r, sz, npid)...)
+	}
 	id := uint64(100)
 	nticks := r.Range(3, 14)
 	for t := 0; t < nticks; t++ {
@@ -54,6 +58,52 @@ func genCase(r *hx.Rand, uniform bool) input {
 		in.Script = append(in.Script, Step{Drain: 2})
 	}
 	return in
+}
+
+// conforming builds non-frame pages whose frames are all claimed: larger pages, pages straddling a
+// frame boundary, empty and half pages, several processes sharing one range. Claiming pages use
+// virtual addresses far from the requested ones.
+func conforming(r *hx.Rand, sz uint64, npid int) []c26.Page {
+	var out []c26.Page
+	va := uint64(100)
+	claim := func(pa uint64) {
+		va++
+		size := []uint64{sz, sz, 0, sz / 2}[r.Intn(4)]
+		out = append(out, c26.Page{PID: uint32(r.Intn(npid + 2)), VAddr: va * sz, PAddr: pa, Size: size, Flags: uint8(r.Intn(16))})
+	}
+	n := r.Range(1, 3)
+	for i := 0; i < n; i++ {
+		base := uint64(r.Intn(9)) * sz
+		va++
+		switch r.Intn(4) {
+		case 0: // a page of 2-4 frames, shared by two processes; the further frames claimed by other pages
+			k := uint64(r.Range(2, 4))
+			out = append(out, c26.Page{PID: uint32(r.Intn(npid + 1)), VAddr: va * sz, PAddr: base, Size: k * sz, Flags: 1})
+			if r.Bool() {
+				va++
+				out = append(out, c26.Page{PID: uint32(npid + 2), VAddr: va * sz, PAddr: base, Size: k * sz, Flags: 3})
+			}
+			for j := uint64(1); j < k; j++ {
+				claim(base + j*sz)
+			}
+		case 1: // a page straddling a frame boundary (or strictly inside one frame)
+			off := 1 + r.U64n(sz-1)
+			size := 1 + r.U64n(sz)
+			out = append(out, c26.Page{PID: uint32(r.Intn(npid + 1)), VAddr: va * sz, PAddr: base + off, Size: size, Flags: 1})
+			claim(base)
+			if off+size > sz {
+				claim(base + sz)
+			}
+		case 2: // an empty page and a half page at a frame boundary
+			out = append(out, c26.Page{PID: uint32(r.Intn(npid + 1)), VAddr: va * sz, PAddr: base, Size: 0, Flags: 1})
+			va++
+			out = append(out, c26.Page{PID: uint32(r.Intn(npid + 1)), VAddr: va * sz, PAddr: base + sz, Size: sz / 2, Flags: 1})
+		default: // an empty page strictly inside a frame: the frame must be claimed
+			out = append(out, c26.Page{PID: uint32(r.Intn(npid + 1)), VAddr: va * sz, PAddr: base + 1 + r.U64n(sz-1), Size: 0, Flags: 1})
+			claim(base)
+		}
+	}
+	return out
 }
 
 func directedUnaligned() input {
@@ -97,7 +147,7 @@ func gen(r *hx.Rand, tier string) []json.RawMessage {
 	}
 	out := []json.RawMessage{hx.J(directedUnaligned()), hx.J(directedLarger()), hx.J(directedConcurrent())}
 	for len(out) < n {
-		out = append(out, hx.J(genCase(r, !r.Chance(1, 6))))
+		out = append(out, hx.J(genCase(r, r.Pick(3, 2, 1))))
 	}
 	return out
 }
@@ -131,8 +181,10 @@ func init() {
 		Imports: "From Akita Require Import Lib.Base C26.Model C27.Model C27.Exec.",
 		Rule: "MMU built by its builder (auto allocation on in 11/12 cases; log2 page size in {1,4,12,16,21}; latency -1..3; " +
 			"1-5 walks in flight; Top buffer 1-4 for back-pressure/retry) around a pre-populated table (0-5 pages over 1-4 processes, " +
-			"physical frames drawn from the first 8 so collisions with the allocation cursor are common; 1/6 of the cases contain a " +
-			"page that is not a frame: unaligned physical address, larger or smaller size), then 3-14 scripted ticks delivering 0-3 " +
+			"physical frames drawn from the first 8-12 so collisions with the allocation cursor are common). Half of the tables are " +
+			"uniform; a third are non-uniform but satisfy the condition of c27_no_alias_general (2-4-frame pages shared by two " +
+			"processes with their further frames claimed, pages straddling a frame boundary with both frames claimed, empty and " +
+			"half pages); a sixth violate it (unaligned physical address, larger or smaller size with an unclaimed frame). Then 3-14 scripted ticks delivering 0-3 " +
 			"requests over 1-6 virtual pages (several walks of one page in flight) and draining 0-3 responses, then drained to quiescence. " +
 			"Directed: DESIGN §1 unaligned (0x800) and 2 MB pre-inserted pages, four concurrent walks of one page with a 1-slot Top buffer. " +
 			"Non-trivial: auto allocation on, >= 2 responses, non-empty final table. Distinct = input hash.",
